@@ -308,7 +308,18 @@ func iniNeedsQuote(s string) bool {
 }
 
 func writeOption(writer io.Writer, optionName string, optionType reflect.Kind, optionKey string, optionValue string, commentOption bool, forceQuote bool) {
-	if forceQuote || (optionType == reflect.String && iniNeedsQuote(optionValue)) {
+	if optionKey != "" && iniNeedsQuote(optionKey) {
+		// The key cannot be written verbatim, so the whole key:value entry
+		// is written as one quoted literal. Inside it the value only needs
+		// quotes of its own if it starts with one (the reader would
+		// otherwise take it for a quoted literal)
+		if len(optionValue) != 0 && optionValue[0] == '"' {
+			optionValue = strconv.Quote(optionValue)
+		}
+
+		optionValue = strconv.Quote(optionKey + ":" + optionValue)
+		optionKey = ""
+	} else if forceQuote || (optionType == reflect.String && iniNeedsQuote(optionValue)) {
 		optionValue = strconv.Quote(optionValue)
 	}
 
